@@ -2,6 +2,7 @@ import CoercionModel.Model.Sched
 import CoercionModel.Model.Skeletons
 import CoercionModel.Generated.F10
 import CoercionModel.Proofs.SchedEngine
+import CoercionModel.Generated.T9
 set_option linter.unusedSimpArgs false
 /-
   C02 — At most Block.Concurrency sequences in flight; one block at a time.
@@ -139,5 +140,46 @@ theorem engine_schedule_is_sched_run (b : Nat) (tol : Int) (qs : List Engine.MSe
     ∃ s', Sched.run { n := qs.length, conc := conc, tol := tol } {} (SchedEngine.seqLabels tol (qs.map Engine.seqOk) 0) = some s' ∧
       s'.pc = .exited ∧ s'.failures = (Engine.runSeqs b tol qs 0).2 :=
   SchedEngine.engine_schedule_is_sched_run b tol qs conc hc
+
+/-! ### where the hypothesis `1 ≤ conc` comes from: `Block.Defaults`, translated from workflow.go on every run (T9) -/
+
+/-- Whatever Concurrency a submitted block carries — unset (0) or negative — the block `populate` stores has
+    Concurrency ≥ 1, and a Concurrency ≥ 1 is kept as written. -/
+theorem translated_defaults_concurrency (newId : Nat) (b : Block) :
+    1 ≤ (Generated.T9.blockDefaults newId b).conc ∧ (1 ≤ b.conc → (Generated.T9.blockDefaults newId b).conc = b.conc) := by
+  unfold Generated.T9.blockDefaults
+  by_cases h : b.conc < 1
+  · simp [h]; omega
+  · simp [h]; omega
+
+/-- `Defaults` touches nothing else the launch loop reads: tolerance and sequences are the submitted ones -/
+theorem translated_defaults_keeps (newId : Nat) (b : Block) :
+    (Generated.T9.blockDefaults newId b).tol = b.tol ∧ (Generated.T9.blockDefaults newId b).seqs = b.seqs := by
+  unfold Generated.T9.blockDefaults
+  by_cases h : b.conc < 1 <;> simp [h]
+
+/-- the launch loop's configuration for a stored block -/
+def cfgOf (b : Block) : Cfg := { n := b.seqs.length, conc := b.conc.toNat, tol := b.tol }
+
+/-- C02 for every submitted block, whatever its Concurrency field says: in every reachable state of every schedule of
+    the launch loop over the block AS STORED (after Defaults), at most max(1, Concurrency) sequences are in flight. -/
+theorem concurrency_bound_of_submitted (newId : Nat) (b : Block) (t : List Label) (s : S)
+    (hr : run (cfgOf (Generated.T9.blockDefaults newId b)) {} t = some s) :
+    s.running ≤ (if 1 ≤ b.conc then b.conc.toNat else 1) := by
+  have hd := translated_defaults_concurrency newId b
+  have hc : 1 ≤ (cfgOf (Generated.T9.blockDefaults newId b)).conc := by
+    simp only [cfgOf]; omega
+  have hb := (concurrency_bound _ hc t s hr).1
+  simp only [cfgOf] at hb
+  by_cases h : 1 ≤ b.conc
+  · simp only [h, ite_true]; rw [hd.2 h] at hb; exact hb
+  · simp only [h, ite_false]
+    have : (Generated.T9.blockDefaults newId b).conc = 1 := by
+      unfold Generated.T9.blockDefaults
+      have h' : b.conc < 1 := by omega
+      simp [h']
+    rw [this] at hb; simpa using hb
+
+example : (Generated.T9.blockDefaults 7 { conc := -3, tol := 2 }).conc = 1 := by decide
 
 end Coercion.C02
